@@ -285,8 +285,10 @@ void SocketTlsImpl::Connect(SockAddrView const &connectAddr)
 void SocketTlsImpl::DriverQuery(short &events)
 {
   if(!SSL_is_init_finished(ssl.get())) {
-    if(lastError == SSL_ERROR_WANT_WRITE) {
+    if((lastError == SSL_ERROR_WANT_WRITE) ||
+       ((lastError == SSL_ERROR_NONE) && SSL_in_before(ssl.get()) && !SSL_is_server(ssl.get()))) {
       // while handshake send is pending we actively request send attempts from the Driver
+      // (this includes a client's first flight: nobody else would start its handshake)
       events |= POLLOUT;
     } else if(lastError == SSL_ERROR_WANT_READ) {
       // while handshake receive is pending we suppress send attempts from the Driver
